@@ -3,6 +3,7 @@
   functions themselves, obtained from the model-level theorems through the bridge theorems.
 -/
 import BEI.Bridge.Tracker
+import BEI.Bridge.Loops
 import BEI.Props.C03
 namespace BEI.Bridge.Source
 open BEI.Rs BEI.Bridge
@@ -49,5 +50,35 @@ theorem tracker_law (v : ActionValue) (rs : List (ConditionKind × AState)) :
   constructor
   · rw [tracker_state, state_of_TInv _ _ h, hv, value_as_bool]
   · rw [tracker_events_blocked, h.eb]; rfl
+
+/-- **the law of C03 for the translated loop**: running the source's `apply_conditions` loop from a fresh tracker over *any* list of
+    conditions — built-in or user-defined (`Cond` is an arbitrary state machine standing for `Box<dyn InputCondition>`), of any
+    length, order and mix of kinds — every condition is evaluated (the updated objects come back, one per condition, in order) and
+    `state()` / `events_blocked()` are the explicit / implicit / blocker law of their results and the value's truthiness. -/
+theorem apply_conditions_law (av : ActionsView) (tk : Tick) (v : ActionValue) (cs : List Cond) :
+    ((TriggerTracker.new v).apply_conditions av tk cs).1.state = lawState (runConds av tk cs v.toModel) v.as_bool
+    ∧ ((TriggerTracker.new v).apply_conditions av tk cs).1.events_blocked = lawEventsBlocked (runConds av tk cs v.toModel)
+    ∧ ((TriggerTracker.new v).apply_conditions av tk cs).2.length = cs.length := by
+  obtain ⟨h1, h2⟩ := tracker_apply_conditions av tk cs (TriggerTracker.new v)
+  have hl := Props.C03.tracker_fold_law av tk v.toModel cs
+  simp only at hl
+  rw [tracker_new] at h1 h2
+  refine ⟨?_, ?_, ?_⟩
+  · rw [tracker_state, h1, hl.1, value_as_bool]
+  · rw [tracker_events_blocked, h1, hl.2.1]
+  · rw [h2]
+    have : ∀ (cs : List Cond) (tr : Tracker), (tr.applyConditions av tk cs).2.1.length = cs.length := by
+      intro cs
+      induction cs with
+      | nil => intro tr; rfl
+      | cons c cs ih => intro tr; simp [Tracker.applyConditions, ih]
+    exact this _ _
+
+/-! concrete runs of the translated code: a failing blocker followed by a passing one still blocks (the defect D1 of the pinned
+    code); an explicit condition that fired fires the action although an earlier explicit one did not -/
+example : (noteAll (TriggerTracker.new (.vBool true)) [(.Blocker false, .none), (.Blocker false, .fired)]).state = .none := by
+  decide
+example : (noteAll (TriggerTracker.new (.vBool true)) [(.Explicit, .none), (.Explicit, .fired)]).state = .fired := by decide
+example : (noteAll (TriggerTracker.new (.vBool true)) [(.Explicit, .fired), (.Implicit, .ongoing)]).state = .ongoing := by decide
 
 end BEI.Bridge.Source
